@@ -484,6 +484,11 @@ def warm_envs():
     D3().tables()
     epoch0_us()
     set_env("zero")
+    if not _env_state.get("bodies"):
+        from beyond.env import solarsystem
+        for name in OTHER_BODIES:
+            solarsystem.get_frame(name)          # registers the frame under its name
+        _env_state["bodies"] = True
 
 
 class eop_env:
@@ -605,6 +610,16 @@ ELL_FORMS = ["cartesian", "keplerian", "keplerian_mean", "keplerian_eccentric", 
              "equinoctial", "spherical", "cylindrical", "tle"]
 HYP_FORMS = ["cartesian", "keplerian", "keplerian_mean", "keplerian_eccentric", "keplerian_circular", "equinoctial", "spherical", "cylindrical"]
 FRAMES = ["EME2000", "EME2000", "GCRF", "MOD", "TOD"]
+# a second and a third attracting body (another mu): the analytical Moon / Sun frames of beyond.env.solarsystem; Kepler only (the J2
+# propagator carries the Earth's J2 and radius whatever the centre)
+OTHER_BODIES = {"Moon": 0.3, "Sun": 3000.0}      # frame name -> factor on the perigee radius drawn for an Earth orbit
+KEPLER_FRAMES = FRAMES + FRAMES + ["Moon", "Moon", "Sun"]
+
+
+def rescale(elts, frame):
+    """the same shape of orbit around another body: lengths scaled to the size of that body's neighbourhood"""
+    k = OTHER_BODIES.get(frame)
+    return elts if k is None else [elts[0] * k] + list(elts[1:])
 
 
 def q(x, step=1e-3):
@@ -761,7 +776,8 @@ def gen_history_input(rng, prop, k=0):
         elif kind == "relabel":
             steps.append(("relabel", rng.choice(SCALES)))
         steps.append(pstep())
-    inp = {"propagator": prop, "form": rng.choice(forms), "frame": rng.choice(FRAMES), "mean_elements": elts, "steps": steps}
+    frame = rng.choice(KEPLER_FRAMES if prop == "Kepler" else FRAMES)
+    inp = {"propagator": prop, "form": rng.choice(forms), "frame": frame, "mean_elements": rescale(elts, frame), "steps": steps}
     if dated:
         env = rng.choice(ENVS)
         sE = rng.choice(SCALES)
@@ -898,10 +914,11 @@ def correspondence(ctx):
     for k in range(N):
         prop = "Kepler" if k % 2 == 0 else "J2"
         conic = "ell" if (rng.random() < 0.55 or (prop == "J2" and rng.random() < 0.8)) else "hyp"
-        elts = gen_elts(rng, conic)
+        frame = rng.choice(KEPLER_FRAMES)        # the model is given mu: any centre, both propagators
+        elts = rescale(gen_elts(rng, conic), frame)
         if rng.random() < 0.05:
             elts[2] = rng.choice([math.pi / 2, math.asin(math.sqrt(0.8)), math.pi - math.asin(math.sqrt(0.8))])
-        cases.append((prop, conic, elts, rng.choice(ELL_FORMS if conic == "ell" else HYP_FORMS), rng.choice(FRAMES), gen_dt(rng), "random", None))
+        cases.append((prop, conic, elts, rng.choice(ELL_FORMS if conic == "ell" else HYP_FORMS), frame, gen_dt(rng), "random", None))
     for inp in slow_m2e_inputs(rng, ctx.n(20000, 200000), ctx.n(60, 600)):
         conic = "ell" if inp["mean_elements"][1] < 1 else "hyp"
         cases.append(("Kepler", conic, inp["mean_elements"], inp["form"], inp["frame"], inp["dt"], "slow-m2e", inp["m2e_passes"]))
@@ -923,7 +940,7 @@ def correspondence(ctx):
         n = mean_motion(mu, x0[0]) if finite(x0) and x0[0] != 0 else float("nan")
         meta.append((prop, impl, (date, frame, n, dt_code, conic), {"propagator": prop, "form": form, "frame": frame, "mean_elements": elts, "dt": dt, "class": tag}))
         out.count(key=reqs[-1], nontrivial=dt != 0, kind=f"{prop}-{conic}", form=form, sign="dt<0" if dt < 0 else "dt>=0",
-                  span="|dt|>1d" if abs(dt) > DAY else "|dt|<=1d", cls=tag)
+                  span="|dt|>1d" if abs(dt) > DAY else "|dt|<=1d", cls=tag, centre=frame if frame in OTHER_BODIES else "Earth")
         if passes is not None:
             out.tally("m2e-passes=" + ("<=20" if passes <= 20 else "21-50" if passes <= 50 else "51-100" if passes <= 100 else ">100"))
         if abs(dt_code - dt) > 1e-9:
@@ -1398,10 +1415,11 @@ class Handing:
 
 def gen_kepler_input(rng):
     conic = "ell" if rng.random() < 0.55 else "hyp"
-    elts = gen_elts(rng, conic)
+    frame = rng.choice(KEPLER_FRAMES)
+    elts = rescale(gen_elts(rng, conic), frame)
     dt = gen_dt(rng)
     t1 = q(rng.uniform(-1, 1) * abs(dt)) if rng.random() < 0.7 else q(rng.uniform(-30, 30) * DAY)
-    return {"propagator": "Kepler", "form": rng.choice(ELL_FORMS if conic == "ell" else HYP_FORMS), "frame": rng.choice(FRAMES),
+    return {"propagator": "Kepler", "form": rng.choice(ELL_FORMS if conic == "ell" else HYP_FORMS), "frame": frame,
             "mean_elements": elts, "dt": dt, "t1": t1, "t2": q(dt - t1), "periods": rng.choice([1, 1, 2, 5, -1, -3])}
 
 
@@ -1415,6 +1433,7 @@ def kepler_case(out, inp):
 def _kepler_case(out, inp, H):
     elts, form, frame, dt = inp["mean_elements"], inp["form"], inp["frame"], inp["dt"]
     conic = "ell" if elts[1] < 1 else "hyp"
+    ctag = f":centre-{frame}" if frame in OTHER_BODIES else ""
     orb, d0 = make(elts, form, frame, "Kepler", H.epoch_date())
     mu = float(orb.frame.center.body.mu)
     x0 = mean_of(orb)
@@ -1423,7 +1442,8 @@ def _kepler_case(out, inp, H):
     arg, dt = H.arg(orb.date, dt)        # from here on `dt` is the elapsed time the argument denotes
     res = orb.propagate(arg)
     c1 = [float(v) for v in res]
-    out.count(key=("kepler", form, tuple(elts), dt, H.epoch, tuple(H.via)), nontrivial=dt != 0, kind=f"kepler-{conic}", form=form, **H.dist())
+    out.count(key=("kepler", form, tuple(elts), dt, H.epoch, tuple(H.via)), nontrivial=dt != 0, kind=f"kepler-{conic}", form=form,
+              centre=frame if frame in OTHER_BODIES else "Earth", **H.dist())
     if H.dated:
         out.tally(f"scales={H.epoch[0]}>{H.used[0][1]}")
     if not finite(c1) or not finite(x0):
@@ -1444,17 +1464,17 @@ def _kepler_case(out, inp, H):
     elif angdiff(x1[3], x0[3]) > tol / math.sin(x0[2]): bad = "raan"
     elif angdiff(x1[4], x0[4]) > tol * cond / min(e, 1.0): bad = "argp"
     if bad:
-        out.fail(f"kepler-element-{bad}-{conic}" + H.tag(), f"Kepler propagation changes {bad}", inp, observed=x1, expected=x0)
+        out.fail(f"kepler-element-{bad}-{conic}" + H.tag() + ctag, f"Kepler propagation changes {bad}", inp, observed=x1, expected=x0)
     Mexp = x0[5] + n * dt
     dM = angdiff(x1[5], Mexp) if conic == "ell" else abs(x1[5] - Mexp)
     if dM > tol * cond / min(e, 1.0) * max(1.0, abs(Mexp) if conic == "hyp" else 1.0) + (0 if H.exact else n * 3e-6):
-        out.fail(f"kepler-M-advance-{conic}" + H.tag(), "mean anomaly does not advance by n dt (dt = time elapsed between the instants of the epoch "
+        out.fail(f"kepler-M-advance-{conic}" + H.tag() + ctag, "mean anomaly does not advance by n dt (dt = time elapsed between the instants of the epoch "
                  "and of the requested date)", inp, observed=x1[5], expected=Mexp, elapsed_s=dt, handed=H.used[-1])
     # 2. independent universal-variable solution, forwards and backwards (property: 1e-5; used: 1e-9 + 1e-10 n|dt|, capped at 1e-5)
     ref = universal_kepler(mu, c0[:3], c0[3:], dt)
     out.count(key=("uv", form, tuple(elts), dt, H.epoch, tuple(H.via)), nontrivial=dt != 0, kind=f"universal-variable-{conic}-{'back' if dt < 0 else 'fwd'}")
     if not rel_err(c1, ref) <= min(1e-5, 1e-9 + 1e-10 * amp) + H.slack(n, e):
-        out.fail(f"kepler-universal-variable-{conic}" + H.tag(), "Kepler.propagate differs from the universal-variable two-body solution", inp,
+        out.fail(f"kepler-universal-variable-{conic}" + H.tag() + ctag, "Kepler.propagate differs from the universal-variable two-body solution", inp,
                  observed=c1, expected=ref, elapsed_s=dt)
     # 3. composition and inverse
     t1, t2 = inp["t1"], inp["t2"]
@@ -1470,7 +1490,7 @@ def _kepler_case(out, inp, H):
             fam = nonfinite_family("Kepler", x0, mu, t1) if not finite(mid) else nonfinite_family("Kepler", mean_of(mid), mu, t2)
             out.fail(fam, "Kepler.propagate returns a non-finite state inside the property's domain (composition leg)", inp, observed=two)
         elif not rel_err(two, c1) <= 3e-9 * amp2 * cond + 2 * H.slack(n, e):
-            out.fail(f"kepler-compose-{conic}" + H.tag(), "propagate(t1) then propagate(t2) differs from propagate(t1+t2)", inp, observed=two, expected=c1,
+            out.fail(f"kepler-compose-{conic}" + H.tag() + ctag, "propagate(t1) then propagate(t2) differs from propagate(t1+t2)", inp, observed=two, expected=c1,
                      handed=H.used[-3:])
     ab, tb = H.arg(res.date, -dt)
     back = [float(v) for v in res.propagate(ab)]
@@ -1478,7 +1498,7 @@ def _kepler_case(out, inp, H):
     if not finite(back):
         out.fail(nonfinite_family("Kepler", x1, mu, -dt), "Kepler.propagate returns a non-finite state inside the property's domain (way back)", inp, observed=back)
     elif not rel_err(back, c0) <= 3e-9 * amp * cond + 2 * H.slack(n, e):
-        out.fail(f"kepler-inverse-{conic}" + H.tag(), "propagate(-t) after propagate(t) does not return to the initial state", inp, observed=back, expected=c0)
+        out.fail(f"kepler-inverse-{conic}" + H.tag() + ctag, "propagate(-t) after propagate(t) does not return to the initial state", inp, observed=back, expected=c0)
     # 4. periodicity of bound orbits
     if conic == "ell":
         period = orb.infos.period
@@ -1489,7 +1509,7 @@ def _kepler_case(out, inp, H):
             out.count(key=("periodic", form, tuple(elts), kk, H.epoch, tuple(H.via)), kind="periodic")
             # the period is rounded to the microsecond by timedelta: allow the motion during k µs at perigee speed
             if not rel_err(per, c0) <= 3e-9 * (1 + TWO_PI * abs(kk)) * cond + abs(kk) * 1e-6 * n * 10 / (1 - e) ** 2 + H.slack(n, e):
-                out.fail("kepler-periodic" + H.tag(), f"state after {kk} period(s) differs from the initial state", inp, observed=per, expected=c0)
+                out.fail("kepler-periodic" + H.tag() + ctag, f"state after {kk} period(s) differs from the initial state", inp, observed=per, expected=c0)
 
 
 
@@ -1535,6 +1555,36 @@ def api_case(out, inp):
             if rel_err(g, ref) > 1e-11 * (1 + n * abs(t)) * cond + 2 * (n * 3e-6 * math.sqrt(1 + e) / abs(1 - e) ** 1.5 if not (d.scale.name in UNIFORM and sc in UNIFORM) else 0):
                 out.fail(f"{prop.lower()}-iter-dates" + H.tag(), "iter(dates=…) gives for a date in one scale another state than propagate() to the same instant "
                          "given in the epoch's scale", inp, observed=g, expected=ref, date=str(d))
+        # two orbits alive in one process, their iterators advanced in lockstep (each owns a propagator object of the same class):
+        # every point is what propagate() of a FRESH orbit with the same coordinates gives
+        if len(dates) >= 2:
+            from beyond.orbits import Orbit
+            elts2 = [elts[0] * 1.07] + list(elts[1:5]) + [elts[5] + 0.9]
+            orb2, _ = make(elts2, inp["form"], inp["frame"], prop, H.epoch_date())
+            snaps = [([float(v) for v in o], o.date, o.form.name) for o in (orb, orb2)]
+            out.count(key=("sibling-iter", prop, tuple(elts), H.epoch, tuple(H.via)), kind=f"{prop.lower()}-sibling-iterators")
+            for k, (pa, pb) in enumerate(zip(orb.iter(dates=dates), orb2.iter(dates=dates))):
+                for which, pt, snap in (("first", pa, snaps[0]), ("second", pb, snaps[1])):
+                    ref = [float(v) for v in Orbit(snap[0], snap[1], snap[2], inp["frame"], prop).propagate(dates[k])]
+                    g = [float(v) for v in pt]
+                    if finite(g) != finite(ref) or (finite(g) and rel_err(g, ref) > 1e-12):
+                        out.fail(f"{prop.lower()}-sibling-iterators", f"point #{k} of the {which} of two orbits iterated in lockstep differs from propagate() of a fresh "
+                                 "orbit with the same coordinates (state shared between two propagator objects?)", inp, observed=g, expected=ref, point=k, which=which)
+                        break
+            # the propagator object used directly: one `orbit = …` assignment, several propagate() calls, in any order of dates
+            from beyond.propagators.kepler import Kepler as _Kep
+            from beyond.propagators.j2 import J2 as _J2
+            P = (_Kep if prop == "Kepler" else _J2)()
+            P.orbit = orb
+            seq = [dates[0], dates[1], dates[0], dates[-1], dates[1]]
+            got = [[float(v) for v in P.propagate(d)] for d in seq]
+            out.count(key=("propagator-object", prop, tuple(elts), H.epoch, tuple(H.via)), kind=f"{prop.lower()}-propagator-object-reuse")
+            for k, (d, g) in enumerate(zip(seq, got)):
+                ref = [float(v) for v in Orbit(snaps[0][0], snaps[0][1], snaps[0][2], inp["frame"], prop).propagate(d)]
+                if finite(g) != finite(ref) or (finite(g) and rel_err(g, ref) > 1e-12):
+                    out.fail(f"{prop.lower()}-propagator-object-reuse", f"call #{k} of propagate() on one propagator object (orbit assigned once) differs from the "
+                             "propagation of a fresh orbit (the propagator's stored orbit was modified by an earlier call?)", inp, observed=g, expected=ref, call=k)
+                    break
         # iter(start, stop, step): start in another scale than the epoch, stop as a timedelta
         step = timedelta(seconds=q(abs(inp["t1"]) / 3))
         if dates and abs(inp["t1"]) > 1 and (dates[0].scale.name in CONST or (dates[0].scale.name == "UTC" and not
